@@ -558,6 +558,6 @@ CLAIM = {
             "for 3D / 1W windows of a session that does not start on the epoch grid of the timeframe. (3) The two timeframe tables agree "
             "with enums.timeframes and with the minutes their labels spell. (4) CandlesState.get_candles/get_current_candle are "
             "interpreted for 0..7 stored minutes of a 3m route: one candle per started window, forming candle = aggregation of the "
-            "stored minutes of that window - also in the history where a partial candle of that window was stored at an earlier order execution (it must not be served once newer minutes arrived). (5) Fast simulator: the chunk step equals the gcd of all route timeframes (trading and data, 15 route sets), and its time loop, interpreted for session lengths 1..13 and steps 1/3/5, partitions the session into consecutive chunks that end exactly at the session length. (6) Every order execution the simulators perform themselves (both matchers, liquidation) is preceded on every path by the rebuild of the routes' candles from the stored 1m candles, so the hooks it triggers read current candles; the partial candle published at every fill is the minute so far (own open, extremes of the path travelled) over all match-loop runs; with several symbols the matcher must advance minute by minute (decided by executing `_simulate_new_candles` for two symbols, rule C07-R12). Not decided: equality of every stored candle at every observation time of a whole run.",
+            "stored minutes of that window - also in the history where a partial candle of that window was stored at an earlier order execution (it must not be served once newer minutes arrived). (5) Fast simulator: the chunk step equals the gcd of all route timeframes (trading and data, 15 route sets), and its time loop, interpreted for session lengths 1..13 and steps 1/3/5, partitions the session into consecutive chunks that end exactly at the session length. (6) Every order execution the simulators perform themselves (both matchers, liquidation) is preceded on every path by the rebuild of the routes' candles from the stored 1m candles, so the hooks it triggers read current candles; the partial candle published at every fill is the minute so far (own open, extremes of the path travelled) over all match-loop runs; with several symbols the matcher must advance minute by minute (decided by executing `_simulate_new_candles` for two symbols, rule C07-R12). Not decided: equality of every stored candle at every observation time of a whole run. The minutes a fast chunk has passed stay in the store as whole input candles (R14); the partial-candle publisher is interpreted against a stateful store model in the history of either simulator (R2b); memo invalidation completeness of CandlesState (R13).",
     "note": "Trusted: interpreter semantics, numpy table model; windows assumed aligned as the property states.",
 }
